@@ -2231,7 +2231,7 @@ def mon_bucket(rr):
                 got = sorted((impl_meta_tuple(parse_meta(x)) for x in items if x.startswith("meta ")), key=repr)
                 # a key is listed iff a lookup finds it, with the entry the lookup finds (records whose integrity
                 # names no known algorithm count for neither: the entry before them stays current)
-                live = {rec["key"]: L.lookup(recs, rec["key"]) for rec in recs}
+                live = {k_: L.lookup(recs, k_) for k_ in {rec["key"] for rec in recs}}
                 wantl = sorted((ref_meta_tuple(v) for v in live.values() if v is not None), key=repr)
                 if got != wantl:
                     out.append(Failure("damage_not_contained", j, f"{stage} ({t['damage']}): listing differs from what the undamaged records imply",
